@@ -88,3 +88,117 @@ pub fn parse_doc_input(input: &str) -> Option<(Opts, String)> {
     let md = String::from_utf8(crate::util::unhex(toks[8])?).ok()?;
     Some((o, md))
 }
+
+/// A test subject: a Markdown document to parse, or a tree to build directly.
+#[derive(Clone, Debug)]
+pub enum Src {
+    Doc(String),
+    Tree(String),
+}
+
+impl Src {
+    pub fn input(&self, o: &Opts) -> String {
+        match self {
+            Src::Doc(md) => doc_input(o, md),
+            Src::Tree(w) => format!("tree {} {}", o.wire(), w),
+        }
+    }
+    pub fn parse_input(input: &str) -> Option<(Opts, Src)> {
+        if input.starts_with("doc ") {
+            let (o, md) = parse_doc_input(input)?;
+            return Some((o, Src::Doc(md)));
+        }
+        let toks: Vec<&str> = input.splitn(9, ' ').collect();
+        if toks.len() != 9 || toks[0] != "tree" {
+            return None;
+        }
+        let o = Opts::from_wire(&toks[1..8])?;
+        Some((o, Src::Tree(toks[8].to_string())))
+    }
+    pub fn render(&self, o: &Opts) -> Result<Rendered, String> {
+        match self {
+            Src::Doc(md) => parse_and_render(md, o),
+            Src::Tree(w) => {
+                let arena = Arena::new();
+                let root = crate::ser::build_tree(&arena, w).ok_or_else(|| "bad tree wire".to_string())?;
+                render_root(root, o)
+            }
+        }
+    }
+    pub fn show(&self) -> String {
+        match self {
+            Src::Doc(md) => format!("doc {:?}", crate::util::show(md.as_bytes())),
+            Src::Tree(w) => format!("tree {}", &w[..w.len().min(300)]),
+        }
+    }
+    /// Runs `f` on the real tree (parsed or built).
+    pub fn with_root<R>(&self, o: &Opts, f: impl for<'a> FnOnce(&'a AstNode<'a>) -> R) -> Result<R, String> {
+        let c = o.to_comrak();
+        let arena = Arena::new();
+        let root = match self {
+            Src::Doc(md) => catch_unwind(AssertUnwindSafe(|| parse_document(&arena, md, &c))).map_err(|_| "PANIC in parse_document".to_string())?,
+            Src::Tree(w) => crate::ser::build_tree(&arena, w).ok_or_else(|| "bad tree wire".to_string())?,
+        };
+        catch_unwind(AssertUnwindSafe(|| f(root))).map_err(|_| "PANIC".to_string())
+    }
+}
+
+pub fn gen_case(r: &mut crate::rng::Rng, corpus: &crate::gen::Corpus) -> (Src, &'static str) {
+    if r.chance(1, 4) {
+        (Src::Tree(crate::treegen::tree_wire(r)), "direct-tree")
+    } else {
+        let (md, s) = crate::gen::mixed_doc(r, corpus);
+        (Src::Doc(md), s)
+    }
+}
+
+/// Pushes the byte-equality correspondence for one (options, subject); returns the real rendering.
+pub fn push_html_k<'a>(bt: &mut crate::model::Batch<'a>, rep: &mut crate::report::Report, o: &Opts, src: &Src, srcname: &str) -> Option<Rendered> {
+    let input = src.input(o);
+    match src.render(o) {
+        Err(p) => {
+            rep.fail("render-total", "panic", input, p);
+            None
+        }
+        Ok(r) => {
+            rep.count(&format!("gen-{}", srcname));
+            rep.add("nodes", r.kinds.len() as u64);
+            if r.kinds.len() > 1 {
+                rep.nontrivial(&(r.kinds.clone(), o.bits.clone()));
+            }
+            for k in &r.kinds {
+                rep.count(&format!("kind-{}", k));
+            }
+            let req = html_request(o, &r);
+            let h1 = r.html.clone();
+            bt.push(req, move |resp, rep| {
+                rep.k_evals += 1;
+                if resp != hex(&h1) {
+                    let m = crate::util::unhex(resp).unwrap_or_default();
+                    rep.disagree("html-bytes", input, crate::util::diff_window(&h1, &m));
+                }
+            });
+            Some(r)
+        }
+    }
+}
+
+/// Deletes every ` <attr>="..."` occurrence (attribute values never contain a raw quote).
+pub fn strip_attr(html: &[u8], attr: &str) -> Vec<u8> {
+    let pat = format!(" {}=\"", attr).into_bytes();
+    let mut out = Vec::with_capacity(html.len());
+    let mut i = 0;
+    while i < html.len() {
+        if html[i..].starts_with(&pat) {
+            let mut j = i + pat.len();
+            while j < html.len() && html[j] != b'"' {
+                j += 1;
+            }
+            i = (j + 1).min(html.len());
+        } else {
+            out.push(html[i]);
+            i += 1;
+        }
+    }
+    out
+}
